@@ -14,7 +14,8 @@ import vlib, clilib
 
 PID = "C19"
 SIGMA = ["<", ">", "&", "\"", "'", "`", "/", "=", " ", "a", "script", "style=", "onerror=", "</div>", "</style>", "-->",
-         "&lt;", "&amp;", "&#39;", "&quot", "\uff02", "\uff1c", "\uff1e", "\uff06"]
+         "&lt;", "&amp;", "&#39;", "&quot", "\uff02", "\uff1c", "\uff1e", "\uff06",
+         "\\", "\\074", "\\g<0>", "{0}", "%s"]
 MARK = "BENIGNTEXT"
 FW = {"\uff02": "@", "\uff1c": "$", "\uff1e": "~", "\uff06": "^"}      # placeholders used by Report.tla for the fullwidth characters
 
@@ -202,7 +203,8 @@ def e2e(rnd, n):
     from cm_colors import ColorPair, make_readable_bulk
     evs = []
     payloads = ["\"><img src=x onerror=alert(1)>", "</div><script>alert(1)</script>", "' onmouseover='x", "&lt;b&gt;", "a&amp;b<",
-                "x\" style=\"y", "`><svg/onload=1>", "--><b>", "&#39;<i>"]
+                "x\" style=\"y", "`><svg/onload=1>", "--><b>", "&#39;<i>",
+                "\\074img src=x onerror=alert()\\076", "\\g<0>\\1", "{0}{pairs}", "%(x)s %s"]
     captured = {}
     orig_gen = cmain.generate_report
 
@@ -227,8 +229,15 @@ def e2e(rnd, n):
             try:
                 os.chdir(wd)
                 captured.clear()
+                raised_e2e = ""
                 if False:
                     pass
+                elif route == 0 and k % 8 == 4:      # CLI: the payload in the prelude of the at-rule the fixed rule is nested in
+                    esc = pay.replace("\\", "\\\\").replace("\"", "\\\"").replace("\n", " ")
+                    open("in.css", "w").write("@supports (content: \"%s\") { .n{color:#777777;background-color:#ffffff} }\n"
+                                               "@media screen and (min-width: 1px) { .m[title=\"%s\"]{color:#888888} }\n" % (esc, esc))
+                    clilib.run_cli(os.path.join(wd, "in.css"), [], wd)
+                    gen, rep = "cli", "cm_colors_report.html"
                 elif route == 0:      # CLI: attribute selector string carrying the payload
                     sel = ".a[title=\"%s\"]" % pay.replace("\\", "\\\\").replace("\"", "\\\"").replace("\n", " ")
                     open("in.css", "w").write(sel + "{color:#777777;background-color:#ffffff}\n")
@@ -259,13 +268,19 @@ def e2e(rnd, n):
                     clilib.run_cli(os.path.join(wd, fname), [], wd)
                     gen, rep = "cli", "cm_colors_report.html"
                 elif route == 2:    # API: a colour string that still parses, save_report on a single pair
-                    with contextlib.redirect_stdout(io.StringIO()):
-                        ColorPair("119, 119, 119 " + pay, "#ffffff").make_readable(save_report=True)
                     gen, rep = "api", "cm_colors_quick_report.html"
-                elif route == 3 and k % 8 == 3:    # API: an ALREADY READABLE pair (unchanged card) with the payload in the background
                     with contextlib.redirect_stdout(io.StringIO()):
-                        make_readable_bulk([("#000000", "255, 255, 255, 1 " + pay)], save_report=True)
+                        try:
+                            ColorPair("119, 119, 119 " + pay, "#ffffff").make_readable(save_report=True)
+                        except Exception as ex:
+                            raised_e2e = type(ex).__name__
+                elif route == 3 and k % 8 == 3:    # API: an ALREADY READABLE pair (unchanged card) with the payload in the background
                     gen, rep = "api", "cm_colors_bulk_report.html"
+                    with contextlib.redirect_stdout(io.StringIO()):
+                        try:
+                            make_readable_bulk([("#000000", "255, 255, 255, 1 " + pay)], save_report=True)
+                        except Exception as ex:
+                            raised_e2e = type(ex).__name__
                 elif route == 1 and k % 8 == 5:    # CLI: a directory with two files that both get fixes, one with a hostile name
                     fname = pay.replace("/", "_").replace("\x00", "") + ".css"
                     try:
@@ -276,9 +291,17 @@ def e2e(rnd, n):
                     clilib.run_cli(wd, [], wd)
                     gen, rep = "cli", "cm_colors_report.html"
                 else:               # API: bulk list with save_report
-                    with contextlib.redirect_stdout(io.StringIO()):
-                        make_readable_bulk([("119, 119, 119" + pay, "#ffffff"), ("#777777", "255, 255, 255 " + pay)], save_report=True)
                     gen, rep = "api", "cm_colors_bulk_report.html"
+                    with contextlib.redirect_stdout(io.StringIO()):
+                        try:
+                            make_readable_bulk([("119, 119, 119" + pay, "#ffffff"), ("#777777", "255, 255, 255 " + pay)], save_report=True)
+                        except Exception as ex:
+                            raised_e2e = type(ex).__name__
+                if raised_e2e:
+                    # the report request made the call raise on user text: a rendering that did not happen
+                    evs.append({"gen": gen + "-e2e", "slot": "call", "ctx": "content", "sym": [], "raw": list(pay), "tags": [], "benignTags": [],
+                                "text": [], "raised": raised_e2e, "given": pay[:80], "route": route})
+                    continue
                 if gen not in captured or not os.path.exists(rep):
                     continue
                 given = captured[gen]
